@@ -135,7 +135,16 @@ class QRStub:
         if getattr(ctx, "concrete", False) and self.real_in_replay:
             xf, yf, wf = x.astype(float), y.astype(float), w.astype(float)
             A2 = dict(A, x=xf, y=yf, weights=wf)
-            return self._orig_fit(qself, **A2)
+            n0 = len(qself.coefficients)
+            for tau in taus:  # keep the recorded stub sequence aligned (values are ignored: the real solver decides)
+                if self.mode == "median" and x.shape[1] == 1:
+                    ctx.stub_value("qr%d_tau%s" % (idx, tau))
+                else:
+                    for j in range(x.shape[1]):
+                        ctx.stub_value("qr%d_tau%s[%d]" % (idx, tau, j))
+            r = self._orig_fit(qself, **A2)
+            rec["coefs"] = [np.asarray(c, dtype=float) for c in qself.coefficients[n0:]]
+            return r
         if A["normalize_weights"]:
             tot = w.sum()
             if not isinstance(tot, Sym) and tot == 0:
@@ -157,6 +166,7 @@ class QRStub:
                 args = cells(x, y, w) + [RV(float(tau)), term(A["lambda_"]), RV(int(bool(A["fit_intercept"])))]
                 outs = stub_values(ctx, "QR_%dx%d" % x.shape, args, x.shape[1], label="qr%d_tau%s" % (idx, tau))
                 coefs.append(obj_array(outs))
+        rec["coefs"] = coefs
         for c in coefs:
             qself.coefficients.append(c)
 
@@ -202,9 +212,10 @@ class BootSigmaStub:
     math_utils: if the caller passes random_state / rng the result is a UF of (data, confidence level, seed);
     otherwise it is a fresh unconstrained positive value on every call (unseeded resampling)."""
 
-    def __init__(self):
+    def __init__(self, force_deterministic=False):
         self.calls = 0
         self._orig = None
+        self.force_deterministic = force_deterministic  # treat unseeded calls as a function of the data too
 
     def install(self):
         from elexmodel.utils import math_utils
@@ -221,6 +232,8 @@ class BootSigmaStub:
             ctx = sym.cur()
             stub.calls += 1
             seedv = rng if rng is not None else random_state
+            if seedv is None and stub.force_deterministic:
+                seedv = 0
             d = np.asarray(data[0] if isinstance(data, (tuple, list)) else data, dtype=object)
             if seedv is None:
                 if getattr(ctx, "concrete", False):
